@@ -7,6 +7,7 @@ import (
 	"io"
 	"sort"
 	"strconv"
+	"sync"
 	"time"
 
 	"golang.org/x/sync/semaphore"
@@ -85,19 +86,11 @@ func c13streamChild(raw json.RawMessage, scratch string) {
 	inChild = true
 	base := prng.New(a.Seed).Split(0xC13)
 	pool := c13pool(3)
-	for i := a.Start; i < a.End; i++ {
+	// streams run three at a time (the tool runs one parser per source link in one process); the three of a group
+	// share the configuration, which is process-global
+	var rmu sync.Mutex
+	runOne := func(i int, cfg e2eCfg, cs *c13streamCase) {
 		rng := base.At(uint64(i))
-		cfg := e2eCfg{TargetDB: -1, SenderCount: uint(rng.Pick(1, 3, 64, 1024)), SenderSize: 1 << 30, Parallel: 2}
-		cs := &c13streamCase{Index: i, N: 300, Sender: cfg.SenderCount}
-		switch i % 3 {
-		case 0:
-			cs.Config, cfg.KeyWhite = "whitelist", []string{"ok:", "also-ok"}
-		case 1:
-			cs.Config, cfg.KeyBlack = "blacklist", []string{"no:", "never"}
-		default:
-			cs.Config = "nofilter"
-		}
-		cfg.apply()
 		var cmds []srcCmd
 		for k := 0; k < cs.N; k++ {
 			c := pool[rng.Intn(len(pool))]
@@ -122,7 +115,9 @@ func c13streamChild(raw json.RawMessage, scratch string) {
 		for k := 0; k < len(cmds) && k < 8; k++ {
 			cs.Head = append(cs.Head, cmds[k].String())
 		}
+		rmu.Lock()
 		wk.ChildCase(i, cs)
+		rmu.Unlock()
 		srv := miniredis.NewServer()
 		conn := srv.NewConn()
 		conn.BlockReceive = true
@@ -143,6 +138,8 @@ func c13streamChild(raw json.RawMessage, scratch string) {
 		complete := waitUntil(8*time.Second, func() bool { return len(snapshot()) >= len(want) })
 		time.Sleep(600 * time.Millisecond) // one more flush period: anything wrongly forwarded shows up
 		got := snapshot()
+		rmu.Lock()
+		defer rmu.Unlock()
 		r.Case(fmt.Sprintf("stream|%s|sc%d", cs.Config, cfg.SenderCount))
 		r.Count("stream_stage_streams", 1)
 		r.Count("stream_stage_source_commands", int64(len(cmds)))
@@ -156,7 +153,7 @@ func c13streamChild(raw json.RawMessage, scratch string) {
 			if i == a.Start {
 				r.Sample(cs)
 			}
-			continue
+			return
 		}
 		for k := d - 2; k <= d+1; k++ {
 			w, g := "-", "-"
@@ -178,6 +175,29 @@ func c13streamChild(raw json.RawMessage, scratch string) {
 		default:
 			r.Violation(sig("command-differs-at-target"), fmt.Sprintf("target command #%d is [%s], the filtered source stream has [%s] there", d, got[d].key(), want[d].key()), cs)
 		}
+	}
+	for g := a.Start; g < a.End; g += 3 {
+		grng := base.At(uint64(1000000 + g))
+		cfg := e2eCfg{TargetDB: -1, SenderCount: uint(grng.Pick(1, 3, 64, 1024)), SenderSize: 1 << 30, Parallel: 2}
+		name := ""
+		switch g / 3 % 3 {
+		case 0:
+			name, cfg.KeyWhite = "whitelist", []string{"ok:", "also-ok"}
+		case 1:
+			name, cfg.KeyBlack = "blacklist", []string{"no:", "never"}
+		default:
+			name = "nofilter"
+		}
+		cfg.apply()
+		var wg sync.WaitGroup
+		for i := g; i < g+3 && i < a.End; i++ {
+			wg.Add(1)
+			go func(i int) {
+				defer wg.Done()
+				runOne(i, cfg, &c13streamCase{Index: i, N: 1500, Sender: cfg.SenderCount, Config: name})
+			}(i)
+		}
+		wg.Wait()
 	}
 	wk.ChildDone(r)
 }
